@@ -48,7 +48,7 @@ func pickPair(rng *rand.Rand) (interface{}, interface{}) {
 	}
 	for {
 		a, b := mustParse(valuePool[rng.Intn(len(valuePool))]), mustParse(valuePool[rng.Intn(len(valuePool))])
-		if !reflect.DeepEqual(a, b) {
+		if !sameValue(a, b) {
 			return a, b
 		}
 	}
@@ -200,6 +200,9 @@ func c02Replay(seed int64, raw json.RawMessage) hx.Result {
 	ctxInfo := map[string]interface{}{"document": string(d.bytes), "entities": w.ent, "keyids": w.kid}
 	if obs.Panic != "" {
 		return hx.Result{OK: false, Key: d.key("verify/panic/after=" + last), What: obs.Panic + " on " + string(d.bytes), Extra: ctxInfo}
+	}
+	if obs.Odd != "" {
+		return hx.Result{OK: false, Key: d.key(obs.OddClass + "/after=" + last), What: obs.Odd + " on " + string(d.bytes), Extra: ctxInfo}
 	}
 	want := map[string]bool{}
 	for _, t := range r.Ver {
